@@ -380,9 +380,14 @@ impl Lmdb {
             let (key, val) = i?;
             let kind = u16::from_be_bytes(key[0..2].try_into().unwrap()).into();
             let author = Pubkey::from_bytes(key[2..34].try_into().unwrap());
-            let mut d = key[35..35 + 182].to_owned();
+            // A d longer than 182 bytes is stored in full (the key is then longer
+            // than 217 bytes); a shorter one is zero-padded to 182 bytes and its
+            // real length is in key[34].
+            let mut d = key[35..].to_owned();
             let when = Time::from_u64(val);
-            d.truncate(key[34] as usize);
+            if key.len() <= 35 + 182 {
+                d.truncate(key[34] as usize);
+            }
             output.push((Addr { kind, author, d }, when));
         }
         Ok(output)
